@@ -115,7 +115,7 @@ def run_impl(case, proto_cache={}):
                     if err is not None:
                         outs.append(['N', err.code, err.subcode])
                         break
-                    outs.append(['I', int(msg), bytes(body).hex(), int(length), bytes(header).hex()])
+                    outs.append(['I', int(msg), body, int(length), header])  # kept as handed up, rendered once the stream is read
             else:
                 if 'p' not in proto_cache:
                     proto_cache['p'] = make_protocol()
@@ -151,13 +151,24 @@ def run_impl(case, proto_cache={}):
                 if err is not None:
                     outs.append(['N', err.code, err.subcode])
                     break
-                outs.append(['I', int(msg), bytes(body).hex(), int(length), bytes(header).hex()])
+                outs.append(['I', int(msg), body, int(length), header])  # kept as handed up, rendered once the stream is read
         finally:
             conn.io = None
     elif mode == 'real':
         outs = run_real_socket(case)
     elif mode == 'mainloop':
         outs = run_mainloop(case)
+    return render_retained(outs)
+
+
+def render_retained(outs):
+    """The protocol layer keeps what the reader hands up (Update keeps its payload, messages are queued): an
+    item must still be the message it was once the following ones have been read.  Items are therefore kept
+    as objects while the stream is read and turned into bytes only at the end."""
+    for o in outs:
+        if o[0] == 'I' and not isinstance(o[2], str):
+            o[2] = bytes(o[2]).hex()
+            o[4] = bytes(o[4]).hex()
     return outs
 
 
@@ -338,7 +349,7 @@ def run_real_socket(case):
             if err is not None:
                 outs.append(['N', err.code, err.subcode])
                 break
-            outs.append(['I', int(msg), bytes(body).hex(), int(length), bytes(header).hex()])
+            outs.append(['I', int(msg), body, int(length), header])  # kept as handed up, rendered once the stream is read
         await w
         conn.close()
         return outs
